@@ -837,7 +837,7 @@ def array(obj, dtype=None, copy=True):
     if isinstance(obj, (list, tuple, range)) or isinstance(obj, types.GeneratorType):
         obj = list(obj)
         if len(obj) and _bany(isinstance(o, (list, tuple, ndarray)) for o in obj):
-            subs = [_as(o) for o in obj]
+            subs = [(array(o, dtype=dtype) if dtype is not None and _dt(dtype) == "O" and not isinstance(o, ndarray) else _as(o)) for o in obj]
             if _bany(s.shape != subs[0].shape for s in subs):
                 raise ValueError("setting an array element with a sequence: inhomogeneous shape")
             shape = (len(subs),) + subs[0].shape
@@ -847,7 +847,7 @@ def array(obj, dtype=None, copy=True):
         else:
             vals = [_unbox(v) for v in obj]
             shape = (len(vals),)
-            dt0 = _infer_dt(vals) if vals else "f8"
+            dt0 = (_infer_dt(vals) if vals else "f8") if dtype is None else None
         d = _dt(dtype) if dtype is not None else dt0
         return ndarray.fresh([_cast(v, d) for v in vals], shape, d)
     obj = _unbox(obj)
